@@ -143,46 +143,61 @@ theorem flush_spec (st : St) :
   simp [flush]
 
 /-- Full specification of `CopyWithControl` on scripts. -/
+theorem copyFrom_spec (l : Limiter) (chk : Nat) (canc : Bool) (rs : List ReadEv) (ws : List WriteEv) (st : St) :
+    ∃ p, (copyFrom l chk canc rs ws st).1.delivered = st.delivered ++ p ∧
+      p <+: allData rs ∧
+      (copyFrom l chk canc rs ws st).1.total = st.total + p.length ∧
+      (copyFrom l chk canc rs ws st).1.counter = st.counter + st.batch + p.length ∧
+      (copyFrom l chk canc rs ws st).1.batch = 0 ∧
+      ((copyFrom l chk canc rs ws st).2.1 = .eof → p = allData rs) := by
+  induction rs generalizing chk canc ws st with
+  | nil =>
+    refine ⟨[], ?_⟩
+    simp [copyFrom, flush, allData]
+  | cons ev rs ih =>
+    unfold copyFrom
+    by_cases hctx : chk + 1 ≥ cloudconst.ContextCheckInterval ∧ canc = true
+    · simp only [hctx, and_self, if_true]
+      refine ⟨[], ?_⟩
+      simp [flush]
+    · simp only [hctx, if_false]
+      obtain ⟨k, hk, hd, ht, hc, hfull⟩ := iter_spec l ev ws st
+      cases hs : (iter l ev ws st).stop with
+      | some s =>
+        simp only
+        refine ⟨ev.data.take k, ?_, ?_, ?_, ?_, ?_, ?_⟩
+        · simp [flush, hd]
+        · rw [allData_cons]
+          exact List.IsPrefix.trans (List.take_prefix k ev.data) (List.prefix_append _ _)
+        · simp [flush, ht, List.length_take]; omega
+        · simp only [flush]
+          have : (List.take k ev.data).length = k := by simp [List.length_take]; omega
+          rw [this]; omega
+        · simp [flush]
+        · intro h
+          subst h
+          exact absurd hs (iter_stop_ne_eof l ev ws st)
+      | none =>
+        simp only
+        have hkfull := hfull hs
+        obtain ⟨p, hp1, hp2, hp3, hp4, hp5, hp6⟩ := ih
+          (if chk + 1 ≥ cloudconst.ContextCheckInterval then 0 else chk + 1) (canc || ev.cancelled)
+          (iter l ev ws st).ws (iter l ev ws st).st
+        refine ⟨ev.data ++ p, ?_, ?_, ?_, ?_, hp5, ?_⟩
+        · rw [hp1, hd, hkfull, List.take_length, List.append_assoc]
+        · rw [allData_cons]; exact (List.prefix_append_right_inj _).mpr hp2
+        · rw [hp3, ht, hkfull, List.length_append]; omega
+        · rw [hp4, List.length_append]; omega
+        · intro h; rw [hp6 h, allData_cons]
+
 theorem copy_spec (l : Limiter) (rs : List ReadEv) (ws : List WriteEv) (st : St) :
     ∃ p, (copy l rs ws st).1.delivered = st.delivered ++ p ∧
       p <+: allData rs ∧
       (copy l rs ws st).1.total = st.total + p.length ∧
       (copy l rs ws st).1.counter = st.counter + st.batch + p.length ∧
       (copy l rs ws st).1.batch = 0 ∧
-      ((copy l rs ws st).2.1 = .eof → p = allData rs) := by
-  induction rs generalizing ws st with
-  | nil =>
-    refine ⟨[], ?_⟩
-    simp [copy, flush, allData]
-  | cons ev rs ih =>
-    obtain ⟨k, hk, hd, ht, hc, hfull⟩ := iter_spec l ev ws st
-    unfold copy
-    cases hs : (iter l ev ws st).stop with
-    | some s =>
-      simp only
-      refine ⟨ev.data.take k, ?_, ?_, ?_, ?_, ?_, ?_⟩
-      · simp [flush, hd]
-      · rw [allData_cons]
-        exact List.IsPrefix.trans (List.take_prefix k ev.data) (List.prefix_append _ _)
-      · simp [flush, ht, List.length_take]; omega
-      · simp only [flush]
-        have : (List.take k ev.data).length = k := by simp [List.length_take]; omega
-        rw [this]; omega
-      · simp [flush]
-      · intro h
-        -- a failing iteration never reports `.eof`
-        subst h
-        exact absurd hs (iter_stop_ne_eof l ev ws st)
-    | none =>
-      simp only
-      have hkfull := hfull hs
-      obtain ⟨p, hp1, hp2, hp3, hp4, hp5, hp6⟩ := ih (iter l ev ws st).ws (iter l ev ws st).st
-      refine ⟨ev.data ++ p, ?_, ?_, ?_, ?_, hp5, ?_⟩
-      · rw [hp1, hd, hkfull, List.take_length, List.append_assoc]
-      · rw [allData_cons]; exact (List.prefix_append_right_inj _).mpr hp2
-      · rw [hp3, ht, hkfull, List.length_append]; omega
-      · rw [hp4, List.length_append]; omega
-      · intro h; rw [hp6 h, allData_cons]
+      ((copy l rs ws st).2.1 = .eof → p = allData rs) :=
+  copyFrom_spec l 0 false rs ws st
 
 /-! ### clean scripts run to EOF -/
 
@@ -199,11 +214,11 @@ theorem cleanWrites_next {ws : List WriteEv} {m n : Nat} (h : CleanWrites ws m) 
     intro x hx
     exact h x (List.mem_cons_of_mem _ hx)
 
-theorem copy_clean_eof (l : Limiter) (rs : List ReadEv) (ws : List WriteEv) (st : St) (m : Nat)
+theorem copyFrom_clean_eof (l : Limiter) (chk : Nat) (rs : List ReadEv) (ws : List WriteEv) (st : St) (m : Nat)
     (hr : CleanReads rs) (hw : CleanWrites ws m) (hm : ∀ ev ∈ rs, ev.data.length ≤ m) :
-    (copy l rs ws st).2.1 = .eof := by
-  induction rs generalizing ws st with
-  | nil => simp [copy]
+    (copyFrom l chk false rs ws st).2.1 = .eof := by
+  induction rs generalizing chk ws st with
+  | nil => simp [copyFrom]
   | cons ev rs ih =>
     have hev := hr ev (List.mem_cons_self ..)
     have hlen := hm ev (List.mem_cons_self ..)
@@ -228,9 +243,14 @@ theorem copy_clean_eof (l : Limiter) (rs : List ReadEv) (ws : List WriteEv) (st 
       · simp only [he, if_true]; split <;> exact hw
       · simp only [he, Bool.false_eq_true, if_false, hlim, Bool.not_true, hwe, hmin, ne_eq, not_true_eq_false]
         split <;> exact hws'
-    unfold copy
-    simp only [hstop]
-    exact ih _ _ (cleanReads_tail hr) hws (fun e he => hm e (List.mem_cons_of_mem _ he))
+    unfold copyFrom
+    simp only [Bool.false_eq_true, and_false, if_false, hstop, hev.1, Bool.or_false]
+    exact ih _ _ _ (cleanReads_tail hr) hws (fun e he => hm e (List.mem_cons_of_mem _ he))
+
+theorem copy_clean_eof (l : Limiter) (rs : List ReadEv) (ws : List WriteEv) (st : St) (m : Nat)
+    (hr : CleanReads rs) (hw : CleanWrites ws m) (hm : ∀ ev ∈ rs, ev.data.length ≤ m) :
+    (copy l rs ws st).2.1 = .eof :=
+  copyFrom_clean_eof l 0 rs ws st m hr hw hm
 
 /-! ### bridge invariant -/
 
